@@ -94,6 +94,9 @@ def apply_site(site, circ, ovr, extra=None):
         return lambda: fill_in_map(circ)
     if site == 'expand_subcircuits':
         return lambda: expand_subcircuits(circ)
+    if site == 'unit_timing':
+        from jaqalpaq.core.algorithm import normalize_blocks_with_unitary_timing
+        return lambda: normalize_blocks_with_unitary_timing(circ)
     raise ValueError(site)
 
 
